@@ -65,6 +65,9 @@ RULE = (
 ASSUMPTIONS = [
     "class-level facts enter the model through the regenerated Generated/ClassTable.lean (shared with C03/C04)",
     "generated classes subclass harness.universe.A and are identified with A in the model (receiver type / instance type)",
+    "protocol checks depend on the value, not only on its class: calls passing a class object (incl. an Enum class) while a "
+    "declared type mentions a protocol class (Iterable, Collection, Container, Hashable, Sized, ...) are searched on the "
+    "implementation (P1-P3, spec streams) but not compared with the table-driven model (e2e streams), as in C04",
     "star arguments, overloads, impl/evaluator signatures, ParamSpec, type variables inside a union or type[...] on the "
     "declared side, __new__-based constructors are outside the model",
     "the type-variable solver is the shared model Pya.C15.resolveCa (Core/TypeVar.lean, property C15)",
@@ -224,6 +227,31 @@ def property_silent(t, o):
     """str/bytes objects against generic ABC targets: the property does not define element-wise membership there."""
     has_str = any(x[0] in ("str", "bytes") for x in subobjs(o))
     return has_str and any(s[0] == "generic" and s[1] in ABCS for s in subterms(t))
+
+
+_PROTO = None
+
+
+def proto_classes():
+    """Class ids pyanalyze treats as protocols (Iterable, Collection, Container, Hashable, Sized, ...), from the live tree."""
+    global _PROTO
+    if _PROTO is None:
+        ck = pya.make_checker()
+        _PROTO = {i for i, c in enumerate(V.CLASSES) if ck.make_type_object(c).is_protocol}
+    return _PROTO
+
+
+def unmodelled_call(c, call):
+    """Value-dependent protocol region (same exclusion as harness/props/c04.py `unmodelled`, C03 class protoClassObj): a
+    class object (incl. an Enum class) among the arguments or defaults while some declared type mentions a protocol class
+    anywhere. pyanalyze looks the protocol members up on the class object / its metaclass, which the table-driven `ca`
+    does not represent; such calls are searched on the implementation but not compared with the model."""
+    P = proto_classes()
+    objs = call[0] + [v for _, v in call[1]] + [p[2] for p in c["params"] if p[2] is not None]
+    if not any(x[0] == "cls" for o in objs for x in subobjs(o)):
+        return False
+    tys = [p[3] for p in c["params"]] + [c["ret"]]
+    return any(s[0] in ("typed", "generic") and s[1] in P for t in tys for s in subterms(t))
 
 
 def same_not_identical(o):
@@ -997,15 +1025,20 @@ def evaluate(ctx, items, with_model=True):
                     cu = canon_unions if from_set else (lambda z: z)
                     ctx.tag("model_" + mv.split(":")[0])
                     # ---- correspondence
-                    ctx.corr("e2e-verdict")
-                    if r["verdict"] != mv_e2e or r["other"]:
+                    modelled = not unmodelled_call(c, call)
+                    if not modelled:
+                        ctx.tag("unmodelled_protocol_region")
+                    if modelled:
+                        ctx.corr("e2e-verdict")
+                    if modelled and (r["verdict"] != mv_e2e or r["other"]):
                         conforms = False
                         ctx.disagree("e2e-verdict", short, {"verdict": r["verdict"], "other": r["other"], "msgs": r["msgs"]}, mv)
-                    ctx.corr("e2e-type")
-                    if cu(r["type"]) != cu(m["ret"]):
+                    if modelled:
+                        ctx.corr("e2e-type")
+                    if modelled and cu(r["type"]) != cu(m["ret"]):
                         conforms = False
                         ctx.disagree("e2e-type", short, r["type"], m["ret"])
-                    if generic and r["sol"] is not None and mv == "OK:":
+                    if modelled and generic and r["sol"] is not None and mv == "OK:":
                         ctx.corr("e2e-sol")
                         msol = {}
                         for grp in split_top(m["sol"]):
